@@ -1287,7 +1287,7 @@ Section Parse.
         unfold rest, t0 in *. clear - Hf. fuel_tac. }
       assert (Hf' : forall X, (length (flag_toks fl l ++ X ++ t0 :: rest) < S (S fu))%nat ->
                               (length (flag_toks fl l ++ X ++ t0 :: rest) < S (S fu))%nat) by auto.
-      destruct s as [cov delta|cov subst|cov repl|cov alts|cov repl|cov adj|cov adj]; try discriminate;
+      destruct s as [c|cov delta|cov subst|cov repl|cov alts|cov repl|cov adj|cov adj]; try discriminate;
         cbn [sub_type] in *; cbn [parse_loop]; unfold bind at 1; cbn [read ttyp tval];
         [ change (list_eqb (k_GSUB ++ digits 1) k_GSUB1) with true
         | change (list_eqb (k_GSUB ++ digits 1) k_GSUB1) with true
